@@ -164,8 +164,9 @@ class gcvar(object):
         if hasattr(self.category, 'decode'):
             self.category = self.category.decode()
         self.cattracerid = self.catoffset + self.tracerid
-        props = ([row for row in self._parent._tdata
-                  if row['tracerid'] == self.cattracerid] +
+        ownprops = [row for row in self._parent._tdata
+                    if row['tracerid'] == self.cattracerid]
+        props = (ownprops +
                  [row for row in self._parent._tdata
                   if row['tracerid'] == self.tracerid])[0]
         for pk in props.dtype.names:
@@ -175,6 +176,15 @@ class gcvar(object):
             if hasattr(pv, 'decode'):
                 pv = pv.decode()
             setattr(self, pk, pv)
+        if len(ownprops) == 0:
+            # no tracerinfo line for offset + tracer number: the tracer with
+            # that bare number lends its name, but (as in bpch1) its scaling
+            # is not meant for this diagnostic; the unit is the header's
+            self.scale = 1.
+            units = self.base_units
+            if hasattr(units, 'decode'):
+                units = units.decode()
+            self.units = units.strip()
 
     def __getattr__(self, k):
         try:
